@@ -181,3 +181,11 @@ func VerifLiveGoroutines() int {
 	}
 	return runtimeNumGoroutine()
 }
+
+// VerifStable states that the value computed under this label must be the same on every
+// execution (every map iteration order, every schedule). Engine: the first path's value is the
+// reference for all later paths of the run. Natively the value is printed; the replay gate runs
+// the harness repeatedly and looks for two different values.
+func VerifStable(label string, value string) {
+	fmt.Printf("VERIF-STABLE %s=%q\n", label, value)
+}
